@@ -1,7 +1,7 @@
 /* The sortDescWithKillPrefs instantiation of this TU: comparator contract, std::sort model, function contract,
  * harnesses.  Included after kill_sort.h by each plugin unit. */
 /* the comparator handed to std::sort */
-_Bool OomdContext__sortDescWithKillPrefs__lambda_1(lambda_t get_key, CgroupContext a, CgroupContext b)
+_Bool OomdContext__sortDescWithKillPrefs__lambda_sort(lambda_t get_key, CgroupContext a, CgroupContext b)
   __CPROVER_requires(KEY_OK(KEYF(get_key, a)) && KEY_OK(KEYF(get_key, b)) && ghost_exc == 0)
   __CPROVER_assigns()
   __CPROVER_ensures(__CPROVER_return_value == 0 || __CPROVER_return_value == 1)
@@ -17,13 +17,14 @@ void ghost_sort(vecit_CgroupContext b, vecit_CgroupContext e, lambda_t get_key)
     if (g_w < n) {
       __CPROVER_assume(g_pw < n && __CPROVER_uninterpreted_elem_sorted(g_pw) == ELEM(g_copy_src, g_w));
       if (g_pw != 0)
-        __CPROVER_assume(!OomdContext__sortDescWithKillPrefs__lambda_1(get_key, __CPROVER_uninterpreted_elem_sorted(g_pw), __CPROVER_uninterpreted_elem_sorted(0)));
+        __CPROVER_assume(!OomdContext__sortDescWithKillPrefs__lambda_sort(get_key, __CPROVER_uninterpreted_elem_sorted(g_pw), __CPROVER_uninterpreted_elem_sorted(0)));
     }
   }
 }
-#define ext__sort__vecit_CgroupContext_vecit_CgroupContext_lambda_t(b, e, cmp) ghost_sort_with__##cmp(b, e, get_key)
-#define ghost_sort_with__OomdContext__sortDescWithKillPrefs__lambda_1(b, e, k) ghost_sort(b, e, k)
+/* the comparator closure handed to std::sort carries its capture (the key functor): units use lambda_bind */
+#define lambda_bind__OomdContext__sortDescWithKillPrefs__lambda_sort(k) (k)
+#define ext__sort__vecit_CgroupContext_vecit_CgroupContext_lambda_t(b, e, cmp) ghost_sort(b, e, cmp)
 vec_CgroupContext OomdContext__sortDescWithKillPrefs(vec_CgroupContext cgroups, lambda_t get_key) SORT_CONTRACT(get_key);
 
-void h_cmp(void) { lambda_t k; CgroupContext a, b; HAVOC_SORT(); OomdContext__sortDescWithKillPrefs__lambda_1(k, a, b); CANARY; }
+void h_cmp(void) { lambda_t k; CgroupContext a, b; HAVOC_SORT(); OomdContext__sortDescWithKillPrefs__lambda_sort(k, a, b); CANARY; }
 void h_sort(void) { lambda_t k; vec_CgroupContext v; HAVOC_SORT(); OomdContext__sortDescWithKillPrefs(v, k); CANARY; }
